@@ -302,4 +302,92 @@ def runHistory (hist : List RunCfg) (s : Recon P R) : Recon P R :=
 
 end Reconstruct
 
+/-! ### configuration calls between runs (`batch_size`, `val_ratio`, `val_mode`, `rng` setters)
+
+A call either is accepted and updates the session, or is rejected (raises) — and then nothing may
+have been stored. -/
+
+/-- a Python value handed to a setter, as far as the validators distinguish -/
+inductive CfgVal where
+  | none
+  | int (i : Int)
+  | float (f : Float)
+  | str (s : String)
+  | other                       -- lists, arbitrary objects
+  deriving Repr
+
+inductive CfgCall where
+  | batchSize (v : CfgVal)      -- `self.batch_size = v`   (also the first statement of `reconstruct(batch_size=v)`)
+  | valRatio (v : CfgVal)       -- `self.val_ratio = v`
+  | valMode (v : CfgVal)        -- `self.val_mode = v`
+  | rng (v : CfgVal)            -- `self.rng = v`
+  deriving Repr
+
+/-- what `reconstruct` reads besides the reconstruction state -/
+structure Session (P R : Type) where
+  recon : Recon P R
+  batchSize : Nat               -- `_batch_size` (initially `num_gpts`)
+  valRatio : Float              -- `_val_ratio`
+  valMode : Mode                -- `_val_mode`
+
+/-- `validate_gt(validate_int(val, …), 0, …)`: the accepted positive integer, if any -/
+def validBatchSize : CfgVal → Option Nat
+  | .int i => if i > 0 then some i.toNat else Option.none
+  | .float f =>                                        -- int(round(value))
+      if f.isFinite then (if pyRound f > 0 then some (pyRound f).toNat else Option.none) else Option.none
+  | _ => Option.none                                   -- round("a") → TypeError
+
+/-- `r = float(r); if r < 0.0 or r > 1.0: raise ValueError` (strings are taken as non-numeric) -/
+def validValRatio : CfgVal → Option Float
+  | .int i => let r := Float.ofInt i; if r < 0.0 || r > 1.0 then Option.none else some r
+  | .float r => if r < 0.0 || r > 1.0 then Option.none else some r
+  | _ => Option.none
+
+/-- `if mode not in ["grid", "random"]: raise ValueError` -/
+def validValMode : CfgVal → Option Mode
+  | .str s => if s == "grid" then some .grid else if s == "random" then some .random else Option.none
+  | _ => Option.none
+
+/-- applies one configuration call; the Boolean says whether it was rejected (raised).
+`entropy` is the OS entropy an unseeded generator would get. -/
+def applyCall {P R : Type} (entropy : Nat) (s : Session P R) : CfgCall → Session P R × Bool
+  | .batchSize .none => (s, false)                      -- `if val is not None:` — None keeps the current value
+  | .batchSize v =>
+      match validBatchSize v with
+      | some b => ({ s with batchSize := b }, false)
+      | Option.none => (s, true)
+  | .valRatio v =>
+      match validValRatio v with
+      | some r => ({ s with valRatio := r }, false)
+      | Option.none => (s, true)
+  | .valMode v =>
+      match validValMode v with
+      | some m => ({ s with valMode := m }, false)
+      | Option.none => (s, true)
+  | .rng .none =>                                       -- unseeded: fresh generator, `_rng_seed = None`
+      ({ s with recon := { s.recon with rng := { rngSeed := Option.none, gen := { seed := entropy, pos := 0 } } } }, false)
+  | .rng (.int k) =>
+      if k ≥ 0 then                                     -- np.random.default_rng(k) succeeds, then the seed is stored
+        ({ s with recon := { s.recon with rng := { rngSeed := some k.toNat, gen := { seed := k.toNat, pos := 0 } } } }, false)
+      else (s, true)                                    -- ValueError: expected non-negative integer
+  | .rng _ => (s, true)                                 -- floats (SeedSequence wants ints), strings, other objects: TypeError
+
+section SessionRun
+variable {P R : Type} [Num R]
+variable (draw : Gen → List Nat → List Nat)
+variable (stepFn : P → List Nat → P × R) (valFn : P → List Nat → R)
+
+/-- `reconstruct(num_iters, reset, batch_size=v)` on a session: the batch size is assigned first
+(a rejected value aborts the call before anything else happens). -/
+def reconstructS (entropy n : Nat) (reset : Bool) (numIters : Nat) (v : CfgVal) (s : Session P R) :
+    Session P R × List (List (List Nat)) × Bool :=
+  let a := applyCall entropy s (.batchSize v)
+  if a.2 then (s, [], true)
+  else
+    let out := reconstruct draw stepFn valFn
+      { reset := reset, numIters := numIters, b := a.1.batchSize, n := n, ratio := a.1.valRatio, mode := a.1.valMode } a.1.recon
+    ({ a.1 with recon := out.1 }, out.2, false)
+
+end SessionRun
+
 end QuantemModel.Batcher
